@@ -1,6 +1,7 @@
 package main
 
 import (
+	"os"
 	"crypto/sha1"
 	"encoding/json"
 	"fmt"
@@ -737,6 +738,36 @@ func (w *World) intrinsic(t *Thread, f *Frame, fnv FuncV, args []Val, c *ssa.Cal
 	case "(github.com/google/uuid.UUID).String":
 		w.names["uuid"]++
 		return fmt.Sprintf("uuid-%d", w.names["uuid"]), false
+	case "hash/fnv.New64a", "hash/fnv.New64", "hash/fnv.New32a", "hash/fnv.New32":
+		// an opaque hash state; its digests are unconstrained integers
+		return IfaceV{typ: types.NewPointer(types.Typ[types.Uint64]), v: Opaque{"stdlib:hash"}}, false
+	case "stdlib:hash.Write":
+		if b, ok := args[0].(BytesV); ok && (b.r == nil || b.r.empty) {
+			return TupleV{int64(0), IfaceV{}}, false
+		}
+		return TupleV{int64(8), IfaceV{}}, false
+	case "stdlib:hash.Sum64", "stdlib:hash.Sum32":
+		h := w.fresh("hash", "Int")
+		w.s.send(fmt.Sprintf("(assert (and (>= %s 0) (< %s 4294967296)))", h, h))
+		return symI(h), false
+	case "math/rand/v2.NewPCG", "math/rand/v2.NewChaCha8", "math/rand.NewSource":
+		return Ptr{w.newObj(Opaque{"rand-source"}, nil), ""}, false
+	case "math/rand/v2.New", "math/rand.New":
+		// a *rand.Rand is not safe for concurrent use: every draw is a write of its state (race-checked)
+		o := w.newObj(Opaque{"rand.Rand"}, nil)
+		o.label = "rand.Rand@" + t.frames[len(t.frames)-1].fn.Name()
+		return Ptr{o, ""}, false
+	case "(*math/rand/v2.Rand).Float64", "(*math/rand.Rand).Float64":
+		if p, ok := args[0].(Ptr); ok && p.o != nil && w.raceOn {
+			w.access(t, p, true)
+		}
+		w.usesRand = true
+		if w.randFixed {
+			return 0.5, false
+		}
+		r := w.fresh("rnd", "Real")
+		w.s.send(fmt.Sprintf("(assert (and (>= %s 0.0) (< %s 1.0)))", r, r))
+		return symR(r), false
 	case "math/rand/v2.Float64", "math/rand.Float64":
 		w.usesRand = true
 		if w.randFixed {
@@ -893,7 +924,10 @@ func (w *World) intrinsic(t *Thread, f *Frame, fnv FuncV, args []Val, c *ssa.Cal
 	case "builtin:cap":
 		switch s := args[0].(type) {
 		case SliceV:
-			return int64(s.hi - s.lo), false
+			if s.o == nil {
+				return int64(0), false
+			}
+			return int64(len(s.o.v.(ArrayV).e) - s.lo), false
 		case *Chan:
 			if s == nil {
 				return int64(0), false
@@ -966,6 +1000,24 @@ func (w *World) appendOp(t *Thread, a0, a1 Val) Val {
 	}
 	a, _ := a0.(SliceV)
 	b, _ := a1.(SliceV)
+	if a.o != nil && b.o != nil && b.hi > b.lo {
+		// spare capacity: the new elements are written into the existing backing array (which other slices,
+		// and other goroutines, may share)
+		if back := a.o.v.(ArrayV).e; a.hi+(b.hi-b.lo) <= len(back) {
+			ne := append([]Val(nil), back...)
+			for k, v := range b.o.v.(ArrayV).e[b.lo:b.hi] {
+				if w.raceOn {
+					w.access(t, Ptr{a.o, fmt.Sprintf(".%d", a.hi+k)}, true)
+				}
+				ne[a.hi+k] = v
+			}
+			a.o.v = ArrayV{ne}
+			if os.Getenv("VP_DEBUG_APPEND") != "" {
+				fmt.Fprintf(os.Stderr, "append in place: label=%q thread=%s at=%d..%d\n", a.o.label, t.name, a.hi, a.hi+(b.hi-b.lo))
+			}
+			return SliceV{a.o, a.lo, a.hi + (b.hi - b.lo)}
+		}
+	}
 	var e []Val
 	if a.o != nil {
 		e = append(e, a.o.v.(ArrayV).e[a.lo:a.hi]...)
